@@ -678,11 +678,11 @@ Proof.
 Qed.
 
 (* (ii) a VARIES_i component *)
-Lemma parse_component_varies_shape i text c :
+Lemma parse_component_varies_shape i text c : i <> 0 ->
   parse_component t TOLERANT e leaf text (Some (name_idx VARIES i)) None None = Ok c ->
   c_name c = Some (name_idx VARIES i) /\ c_dt c = None.
 Proof.
-  unfold parse_component. rewrite (mk_component_varies t). cbn [bind c_dt c_st].
+  intros Hi. unfold parse_component. rewrite (mk_component_varies t) by exact Hi. cbn [bind c_dt c_st].
   destruct (parse_subcomponents t TOLERANT e leaf text None None) as [kids|]; cbn [bind]; [|discriminate].
   rewrite base_none. cbn [andb]. intros H. apply add_subs_full in H. subst c. split; reflexivity.
 Qed.
@@ -771,18 +771,19 @@ Qed.
 
 (* (b) a field whose datatype is varies or absent: all pieces become VARIES_i components *)
 Lemma parse_components_aux_varies_shape fdt st l :
-  base fdt = false -> opt_is_none fdt || is_varies fdt = true -> has_map st = false ->
+  base fdt = false -> opt_is_none fdt || is_varies fdt = true -> has_map st = false -> pos_idx l ->
   forall kids, parse_components_aux t TOLERANT e leaf fdt st l = Ok kids ->
   map c_name kids = map (fun p => Some (name_idx VARIES (fst p))) l /\ Forall (fun c => c_dt c = None) kids.
 Proof.
-  intros Hb Hv Hm. induction l as [|[i s0] l IH]; intros kids H.
+  intros Hb Hv Hm. induction l as [|[i s0] l IH]; intros Hp kids H.
   - cbn in H. injection H as <-. split; constructor.
-  - cbn [parse_components_aux] in H. rewrite Hb, Hv, Hm in H.
+  - apply Forall_cons_iff in Hp. destruct Hp as [Hi Hp]. cbn [fst] in Hi. specialize (IH Hp).
+    cbn [parse_components_aux] in H. rewrite Hb, Hv, Hm in H.
     change (name_idx (unbs "VARIES") i) with (name_idx VARIES i) in H.
     rewrite (name_idx_varies_starts i), !orb_true_r in H.
     destruct (parse_component t TOLERANT e leaf s0 (Some (name_idx VARIES i)) None None) as [x|] eqn:Ex; cbn [bind] in H; [|discriminate].
     destruct (parse_components_aux t TOLERANT e leaf fdt st l) as [xs|]; cbn [bind] in H; [|discriminate].
-    injection H as <-. destruct (parse_component_varies_shape i s0 x Ex) as [Hn Hd].
+    injection H as <-. destruct (parse_component_varies_shape i s0 x Hi Ex) as [Hn Hd].
     destruct (IH xs eq_refl) as [I1 I2]. split; [cbn [map fst]; now rewrite Hn, I1|now constructor].
 Qed.
 
@@ -800,7 +801,7 @@ Proof.
   assert (Hb : base fdt = false) by (destruct Hd as [->| ->]; [reflexivity|exact Hvar]).
   assert (Hv : opt_is_none fdt || is_varies fdt = true) by (destruct Hd as [->| ->]; reflexivity).
   destruct (parse_components t TOLERANT e leaf text fdt sto) as [kids|] eqn:Ek; cbn [bind]; [|discriminate].
-  unfold parse_components in Ek. destruct (parse_components_aux_varies_shape fdt sto _ Hb Hv Hh kids Ek) as [Hnames Hdts].
+  unfold parse_components in Ek. destruct (parse_components_aux_varies_shape fdt sto _ Hb Hv Hh (indexed_pos _) kids Ek) as [Hnames Hdts].
   rewrite Hb. rewrite andb_false_r. cbn [andb].
   intros H. apply add_comps_full in H. subst f. cbn [f_name f_dt f_st f_children app].
   split; [reflexivity|]. split; [exact Hn|]. split.
